@@ -18,6 +18,9 @@ def params(tier):
     # in order and content (e.g. two burnup steps): results are stored per output and per zone, nothing may be shared per geometry
     for nout, nzone, nisot, isovar, total in itertools.product((2, 3), (1, 2), (1, 2), ('same', 'rotated'), (True, False)):
         out.append(dict(nout=nout, nzone=nzone, ng=2, nisot=nisot, nreac=2, total=total, aniso=False, sharedgeom=True, isovar=isovar))
+    # an isotope that is listed (ISOTOPE / CONCEN) but has no result group of its own, followed by isotopes that have one
+    for nout, nzone, hole in itertools.product((1, 2), (1, 2), (0, 1)):
+        out.append(dict(nout=nout, nzone=nzone, ng=2, nisot=3, nreac=1, total=False, aniso=False, norates=hole))
     return out + user_params(tier)
 
 
@@ -83,8 +86,10 @@ def write_file(path, par):
                     zgr['ISOTOPE'] = np.array([(i + '   ').encode() for i in isos])
                     zgr['CONCEN'] = np.array([0.5 * (k + 1) + 0.001 * base for k in range(par['nisot'])], dtype=np.float64)
                     for kis, iso in enumerate(isos):
-                        igr = zgr.create_group(iso)
                         truth[(oname, zname, iso, 'concentration')] = np.float64(0.5 * (kis + 1) + 0.001 * base)
+                        if par.get('norates') == kis:
+                            continue                    # concentration only, no group
+                        igr = zgr.create_group(iso)
                         for ire in range(par['nreac']):
                             igr[REACTIONS[ire]] = arr(base + 10 * (kis + 1) + 5 * ire, ngr)
                             truth[(oname, zname, iso, REACTIONS[ire])] = arr(base + 10 * (kis + 1) + 5 * ire, ngr)
@@ -190,7 +195,8 @@ def check_file(rep, dirname, par):
     truth = write_file(path, par)
     local = truth.pop('__local__')
     case = {'format': 'apollo3', 'params': par}
-    tag = f"nisot={par['nisot']}|aniso={par['aniso']}|total={par['total']}" + ('|sharedgeom' if par.get('sharedgeom') else '')
+    tag = f"nisot={par['nisot']}|aniso={par['aniso']}|total={par['total']}" + ('|sharedgeom' if par.get('sharedgeom') else '') + \
+        ('|isotope-without-group' if par.get('norates') is not None else '')
     nont = par['nout'] > 1 or par['nzone'] > 1 or par['nisot'] > 1
     rep.case(nontrivial=repr(sorted(par.items())) if nont else None, outcome=('ap3', par['nout'], par['nzone'], par['nisot']))
 
@@ -266,6 +272,8 @@ def check_file(rep, dirname, par):
                     bad('picker-isotopes', f'{out}/{zone}: isotopes {got_iso}, stored {exp_iso}')
                 for iso in [None] + exp_iso:
                     exp_res = sorted(k[3] for k in truth if k[:3] == (out, zone, iso))
+                    if exp_res == ['concentration'] and par.get('norates') is not None:
+                        continue            # the isotope without a group: there is nothing to list
                     got_res = sorted(pick.results(output=out, zone=zone, isotope=iso))
                     # the listing helper also shows the bookkeeping datasets of the local values: not results, not judged
                     got_res = [r for r in got_res if r not in ('LOCALNAME', 'LOCALVALUE', 'localvalue', 'NVAL')]
